@@ -1,4 +1,5 @@
 import SppModel.Generated.ReaderArith
+import SppModel.Frozen.ReaderArith
 import SppModel.Model.Reduce
 /-!
 # Source tie — `Filterbank.collapse` / `read_chan` output offsets (C06)
@@ -7,9 +8,9 @@ import SppModel.Model.Reduce
 translator no longer recognises is listed in its `translationFailures` (the module still elaborates).
 -/
 namespace SppModel.Tie
-open SppModel SppModel.Generated.ReaderArith
+open SppModel SppModel.Frozen.ReaderArith
 
-theorem collapse_translated : ∀ f ∈ translationFailures, f.1 ∉ ["base_py", "collapse_index", "read_chan_slice"] := by decide
+theorem collapse_translated : ∀ f ∈ Generated.ReaderArith.translationFailures, f.1 ∉ ["base_py", "collapse_index", "read_chan_slice"] := by decide
 
 /-- the offset handed to `kernels.extract_tim` is the model's `b.ii * g` (`Reduce.collapseWrites`) -/
 theorem collapse_index_eq (g ii : Nat) : collapse_index g ii = ii * g := rfl
